@@ -3,6 +3,7 @@ import IgrisModel.C13.Model
 import IgrisModel.C13.Shape
 import IgrisModel.C13.Tie
 import IgrisModel.C13.Nested
+import IgrisModel.C13.IntW
 open Igris.Proto Igris.C13
 
 def hexOfChars (cs : List Char) : String :=
@@ -151,7 +152,8 @@ def stepLine (_ : Unit) (line : String) : Unit × String :=
       let precision ← p.toNat?
       let ops := opsOfMask (← parseHexNat? m)
       let x := ofBits bits
-      let r := resOf (printF b64A cfgNow FUEL x (decide (bits ≥ 2 ^ 63)) width precision ops (we = "1") (sh = "1"))
+      -- `printFC`: the emission part in C `int` arithmetic (IntW.lean)
+      let r := resOf (printFC b64A cfgNow FUEL x (decide (bits ≥ 2 ^ 63)) width precision ops (we = "1") (sh = "1"))
       match r, x with
       | .done out _, .fin _ mag =>
         let conv := if sh = "1" then 'g' else if we = "1" then 'e' else 'f'
